@@ -32,6 +32,7 @@ RULE = ('one case = (number of streams 1-3, device script per stream: 1-4 WRTE p
         'fault = the device withholds the OKAY of host WRTE chunk 0-2 (never / until the '
         'retries returned / for half the write time-out) while the host retries 1-3 writes, '
         'optionally with a second writer thread and a reader thread on the same stream; '
+        'flood = 10-300 acknowledged device messages for a stream nobody reads yet while another stream pumps the connection (five modes); '
         'distinct = distinct (scenario, schedule); non-trivial = all streams were opened and '
         'at least one device WRTE was delivered and judged')
 ASSUMPTIONS = [
